@@ -195,9 +195,13 @@ func c04Inputs(c *Ctx, quick bool, emit func(in []byte)) {
 				}
 			}
 		}
-		if !quick {
-			for _, actual := range []int{65535, 65536, 65537} {
-				for _, ln := range []uint32{65535, 65536, 65537} {
+		{
+			actuals := []int{65535, 65536, 65537}
+			if !quick {
+				actuals = append(actuals, 65548, 69632)
+			}
+			for _, actual := range actuals {
+				for _, ln := range []uint32{65535, 65536, 65537, uint32(actual)} {
 					h := ref.Header{Version: 0xc0, Type: 3, Seq: 1, Session: 9, Length: ln}
 					emit(append(h.Encode(), fill('z', actual, false)...))
 				}
@@ -289,10 +293,21 @@ func c04One(c *Ctx, name string, in []byte, measure bool) {
 		if err := t.Validate(); err != nil {
 			fail("invalid", "accepted header fails its own validation: "+err.Error())
 		}
+		// independent restatement of the header rules, the 65536-byte body cap included
+		if rh := ref.DecodeHeader(in); !rh.Valid() {
+			fail("invalid", fmt.Sprintf("accepted header %+v breaks the header rules (version 0xc0/0xc1, type 1..3, sequence >= 1, length <= 65536)", rh))
+		}
 	case *tq.Packet:
 		if t.Header == nil {
 			fail("invalid", "accepted packet has no header")
 			return
+		}
+		if len(t.Body) > 65536 || t.Header.Length > 65536 {
+			fail("invalid", fmt.Sprintf("accepted packet carries a body of %d bytes (length field %d): a packet body is capped at 65536 bytes", len(t.Body), t.Header.Length))
+			return
+		}
+		if rh := ref.DecodeHeader(in); !rh.Valid() {
+			fail("invalid", fmt.Sprintf("accepted packet has header %+v which breaks the header rules", rh))
 		}
 		if 12+int(t.Header.Length) > len(in) || !bytes.Equal(t.Body, in[12:12+int(t.Header.Length)]) {
 			fail("overread", fmt.Sprintf("packet body is not the %d announced bytes inside the input", t.Header.Length))
